@@ -510,6 +510,7 @@ macro_rules! dispatch_k {
             bsv::Cid::MDna => $f::<bsv::MDna>($($args),*),
             bsv::Cid::MIupac => $f::<bsv::MIupac>($($args),*),
             bsv::Cid::Degen => $f::<bsv::DegDna>($($args),*),
+            other => panic!("{other:?}: the harness-defined codecs are not instantiated for k-mers"),
         }
     };
 }
